@@ -18,7 +18,10 @@ RULE = ("programs of depth <= 4 from the C04 generator with tick probability 0.8
         "numbered in source order); non-trivial = the observed log has >= 3 entries and the program contains a "
         "short-circuit form or a per-element lambda; distinct = (program, document). O: exhaustive truth tables "
         "of the lazy forms + every registered name x argument tuples from a typed corpus")
-TRUSTED = c04.TRUSTED + ["the probe function tick(id, value) registered by the harness in a child of the standard context"]
+TRUSTED = c04.TRUSTED + ["the probe function tick(id, value) registered by the harness in a child of the standard context",
+                         "Model/Resolution.v (C11_once_whatever_overloads, C11_once_each) is tied to runner.choose_overload by "
+                         "the C05/C06/C12 correspondence (evaluation logs compared there); here the same clause is observed by "
+                         "the registry sweep"]
 ASSUMPTIONS = ["the number of key-selector calls inside orderBy is decided by CPython's sort and is not modelled",
                "stdlib functions outside the fragment of Model/Eval.v are covered by the O sweep only (eager-argument rule)"]
 LEVEL_NOTE = ("Model/Eval.v reference interpreter tied to yaql by the tick-log correspondence; probe function tick(id, value) "
